@@ -419,8 +419,8 @@ class Interp:
                 out = set()
                 for (p, s0, w, l) in st:
                     for k in (0, 1, 2):
-                        v = self.resync_model.run(k, s0)
-                        out.add((v, v, w, l))
+                        for v in self.resync_model.run_all(k, s0) or ():
+                            out.add((v, v, w, l))
                 if rec is not None:
                     rec.append((fi, node, ("flag_store", call, call, True, False), st, chain))
                 return frozenset(out)
@@ -449,15 +449,69 @@ class ResyncModel:
         self.param = self.fi.params[1] if len(self.fi.params) > 1 else None
 
     def run(self, k, s):
-        env = {self.param: k}
-        self.cur = s
-        try:
-            self._block(self.fi.node.body, env)
-        except ResyncModel._Unknown:
+        """The resulting flags when every outcome agrees, None when a construct is not understood.  `run_all` gives the set."""
+        outs = self.run_all(k, s)
+        if outs is None or len(outs) != 1:
             return None
-        except _Return:
-            pass
-        return self.cur & self.fm.width
+        return next(iter(outs))
+
+    def run_all(self, k, s):
+        """All flag vectors the function can leave, a test the evaluator cannot decide (`self.edb is None`) being taken both ways."""
+        results, stack, runs = set(), [[]], 0
+        while stack:
+            pre = stack.pop()
+            runs += 1
+            if runs > 256:
+                return None
+            self.choices, self.made, self.depth = list(pre), [], 0
+            env = {self.param: k}
+            self.cur = s
+            try:
+                self._block(self.fi.node.body, env)
+            except ResyncModel._Unknown:
+                return None
+            except _Return:
+                pass
+            results.add(self.cur & self.fm.width)
+            for i in range(len(pre), len(self.made)):
+                stack.append(self.made[:i] + [True])
+        return results
+
+    def _choose(self):
+        i = len(self.made)
+        v = self.choices[i] if i < len(self.choices) else False
+        self.made.append(v)
+        return v
+
+    def _test(self, e, env):
+        if isinstance(e, ast.BoolOp):
+            for v in e.values:
+                t = self._test(v, env)
+                if isinstance(e.op, ast.And) and not t:
+                    return False
+                if isinstance(e.op, ast.Or) and t:
+                    return True
+            return isinstance(e.op, ast.And)
+        if isinstance(e, ast.UnaryOp) and isinstance(e.op, ast.Not):
+            return not self._test(e.operand, env)
+        try:
+            return bool(self._ev(e, env))
+        except ResyncModel._Unknown:
+            # a condition on something else than the flags and the reported state: both outcomes are possible,
+            # provided evaluating it cannot itself store flags
+            for c in ast.walk(e):
+                if isinstance(c, ast.Call) and not F.is_state_read(self.repo, None, c):
+                    d = dotted(c.func) or ""
+                    if not (d.split(".")[-1].startswith(("is_", "has_", "exists", "isinstance", "len")) or d in ("isinstance", "len", "bool")):
+                        raise
+            return self._choose()
+
+    def _method(self, name):
+        cls = self.fi.qual.rsplit(".", 1)[0]
+        try:
+            return self.repo.func(F.CLI, cls + "." + name)
+        except Exception:
+            return None
 
     def _block(self, stmts, env):
         for st in stmts:
@@ -466,6 +520,8 @@ class ResyncModel:
             if isinstance(st, ast.Pass):
                 continue
             if isinstance(st, ast.Return):
+                if st.value is not None:
+                    raise _Return(self._ev(st.value, env))
                 raise _Return()
             if isinstance(st, ast.Assign) and len(st.targets) == 1 and isinstance(st.targets[0], ast.Name):
                 env[st.targets[0].id] = self._ev(st.value, env)
@@ -482,10 +538,12 @@ class ResyncModel:
                 self.cur = self._ev(st.value, env)
                 continue
             if isinstance(st, ast.Expr) and isinstance(st.value, ast.Call):
+                if (dotted(st.value.func) or "").split(".")[0] in ("logger", "logging", "print"):
+                    continue
                 self._ev(st.value, env)
                 continue
             if isinstance(st, ast.If):
-                if self._ev(st.test, env):
+                if self._test(st.test, env):
                     self._block(st.body, env)
                 else:
                     self._block(st.orelse, env)
@@ -519,6 +577,19 @@ class ResyncModel:
                     return (a0 | sb) if self._ev(e.args[1], env) else (a0 & ~cb)
             if d == "bool" and len(e.args) == 1:
                 return bool(self._ev(e.args[0], env))
+            if len(parts) == 2 and parts[0] == "self" and not e.keywords and self.depth < 4:
+                # another method of the service called from the re-synchronisation: evaluated in place
+                m = self._method(parts[1])
+                if m is not None and len(m.params) == len(e.args) + 1 and not isinstance(m.node, ast.AsyncFunctionDef):
+                    env2 = {p: self._ev(a, env) for p, a in zip(m.params[1:], e.args)}
+                    self.depth += 1
+                    try:
+                        self._block(m.node.body, env2)
+                    except _Return as r:
+                        return r.args[0] if r.args else None
+                    finally:
+                        self.depth -= 1
+                    return None
             raise U()
         if isinstance(e, ast.Compare):
             left = self._ev(e.left, env)
@@ -590,11 +661,13 @@ def _check_resync(repo, rule, fm, it):
     understood = True
     for k in (0, 1, 2):
         for s in it.universe:
-            out = rm.run(k, s)
-            if out is None:
+            outs = rm.run_all(k, s)
+            if outs is None:
                 understood = False
                 break
             want = (s & ~(cu | du)) | (cu if k >= 1 else 0) | (du if k == 2 else 0)
+            bad = sorted(o for o in outs if o != want)
+            out = bad[0] if bad else want
             if out != want:
                 rule.fail_fn(rm.fi, rm.fi.node, "resync result for server state %d" % k,
                              "re-synchronising with server state %d from flags [%s] yields [%s], expected [%s] "
@@ -607,6 +680,25 @@ def _check_resync(repo, rule, fm, it):
         rule.ok({"function": rm.fi.qual, "evaluated": "3 server states x %d flag vectors" % len(it.universe)})
     else:
         rule.note("re-synchronisation function uses constructs the constant evaluator does not model; falling back to the abstract interpreter")
+        # what can still be said without evaluating: nothing reachable from the re-synchronisation applies the setter of another flag
+        seen, todo = set(), [rm.fi]
+        while todo:
+            f = todo.pop()
+            if f.key in seen:
+                continue
+            seen.add(f.key)
+            for c in ast.walk(f.node):
+                if not isinstance(c, ast.Call):
+                    continue
+                parts = (dotted(c.func) or "").split(".")
+                if len(parts) >= 2 and parts[-2] == "ClientServiceState" and parts[-1].startswith("set_") and parts[-1][4:] in fm.setter_bit:
+                    sb, cb = fm.setter_bit[parts[-1][4:]]
+                    rule.require(bool(sb) and not ((sb | (cb or 0)) & ~(cu | du)), f, "setter applied during re-synchronisation",
+                                 "the re-synchronisation with the server's state applies %s: only the two upload flags may follow the server, the steps done locally stay done" % parts[-1], c)
+                if len(parts) == 2 and parts[0] == "self":
+                    m = rm._method(parts[1])
+                    if m is not None and len(seen) < 12:
+                        todo.append(m)
     # the re-synchronisation runs on every successful connect, for every reported state (0 is falsy!)
     lw = repo.func(F.CLI, "Service.load_websocket")
     cfg = cfg_of(lw.node)
@@ -1180,9 +1272,41 @@ def _check_create_refuses_existing(repo, r9):
                "service from a configuration that already carries a salt (e.g. the stored config of an existing service) silently "
                "resets that service's flags, after which its key is regenerated and the uploaded index becomes unsearchable")
     # the sid is derived from the config content, after salting
-    calls = [c for c in ast.walk(hc.node) if isinstance(c, ast.Call) and dotted(c.func) in ("_calculate_sid_by_config_content", "_add_salt_to_config")]
-    names = [dotted(c.func) for c in sorted(calls, key=lambda c: (c.lineno, c.col_offset))]
-    r9.require(names == ["_add_salt_to_config", "_calculate_sid_by_config_content"], hc, "salt then sid",
+    # (roles, not names: the salting is a call - or an inline store - that puts fresh random bytes under a constant key of the
+    # configuration; the derivation is the call whose result becomes self.sid and whose callee hashes its argument; either callee
+    # may live in another module)
+    def _callee(c):
+        try:
+            t = repo.resolve_call(hc, c)
+        except Exception:
+            t = None
+        return t if hasattr(t, "node") else None
+
+    def _salts(fn_node):
+        return any(isinstance(st, ast.Assign) and any(isinstance(t, ast.Subscript) and isinstance(t.slice, ast.Constant) and isinstance(t.slice.value, str) for t in st.targets)
+                   and any(isinstance(c, ast.Call) and (dotted(c.func) or "").split(".")[-1] in ("urandom", "token_bytes", "token_hex", "randbytes") for c in ast.walk(st.value))
+                   for st in ast.walk(fn_node))
+
+    def _hashes(fn_node):
+        return any(isinstance(c, ast.Call) and ((dotted(c.func) or "").startswith("hashlib.") or (dotted(c.func) or "").split(".")[-1] in ("sha256", "sha1", "sha512", "blake2b", "digest", "hexdigest"))
+                   for c in ast.walk(fn_node))
+    sid_stores = [st for st in ast.walk(hc.node) if isinstance(st, ast.Assign) and any(unparse(t) == "self.sid" for t in st.targets)]
+    derive = [st for st in sid_stores if isinstance(st.value, ast.Call) and ((_callee(st.value) is not None and _hashes(_callee(st.value).node)) or _hashes(st.value))]
+    order = {}
+
+    def _number(n):
+        order[id(n)] = len(order)       # source order of the (possibly expanded) body: line numbers of expanded helpers are foreign
+        for ch in ast.iter_child_nodes(n):
+            _number(ch)
+    _number(hc.node)
+    salt_pos = [order[id(c)] for c in ast.walk(hc.node) if isinstance(c, ast.Call) and _callee(c) is not None and _salts(_callee(c).node)]
+    salt_pos += [order[id(st)] for st in ast.walk(hc.node) if isinstance(st, ast.Assign) and _salts(st)]
+    hash_pos = [order[id(c)] for c in ast.walk(hc.node) if isinstance(c, ast.Call) and (_hashes(c) or (_callee(c) is not None and _hashes(_callee(c).node)))]
+    if not derive and len(sid_stores) == 1 and hash_pos and isinstance(sid_stores[0].value, (ast.Name, ast.Call, ast.Attribute)) and min(hash_pos) < order[id(sid_stores[0])]:
+        derive = sid_stores         # the derivation was expanded in place: the digest is computed before the store
+    first_hash = min(hash_pos) if hash_pos else -1
+    names = {"salting": len(salt_pos), "sid derivations": len(derive), "stores of self.sid": len(sid_stores)}
+    r9.require(len(sid_stores) == 1 and len(derive) == 1 and bool(salt_pos) and min(salt_pos) < first_hash, hc, "salt then sid",
                "handle_create_config no longer salts the configuration before deriving the sid from it (found %s)" % names)
 
 
